@@ -23,10 +23,16 @@ let gd_dir_cycle line =
 let gd_frag_cycle line =
   show_verdicts (gd_doc_frag_verdicts (Lib_ast.document_of_string (field0 line)))
 
+(* `<ast dump> <hex document source> <schema dump>`: the schema the document is validated against, as built by
+   the real builder, gives the typing functions of validate_selection_set *)
 let gd_walk line =
-  let o = gd_doc_walk_obs (Lib_ast.document_of_string (field0 line)) in
-  Printf.sprintf "rec=%d used=%d defer_root=%d uncond=%d trunc=%d"
+  let ty = match String.split_on_char ' ' line with
+    | [_; _; sch] -> vs_typing_of_schema (Lib_schema.schema_of_string sch)
+    | _ -> failwith "gd_walk: <ast dump> <hex source> <schema dump>" in
+  let o = gd_doc_walk_obs ty (Lib_ast.document_of_string (field0 line)) in
+  Printf.sprintf "rec=%d used=%d defer_root=%d uncond=%d undef=%d sel=%d trunc=%d"
     (int_of_n o.gwo_recursion) (int_of_n o.gwo_used_limit) (int_of_n o.gwo_defer_root) (int_of_n o.gwo_uncond)
+    (int_of_n o.gwo_undefined) (int_of_n o.gwo_sel_limit)
     (if o.gwo_defer_truncated then 1 else 0)
 
 (* graph: `id:kid,kid;id:;...@root,root` (ids are ASCII) *)
